@@ -440,6 +440,8 @@ func (e *Engine) solveAll(want func(*Obligation) bool, quickMs, slowMs int, work
 	var jobs []*job
 	claimed := map[*Obligation]bool{}
 	owner := map[*Obligation][]Line{}
+	hardPath := map[*Obligation]bool{} // keyed by the first obligation of the path's first batch
+	pathKey := map[*Obligation]*Obligation{}
 	// pass 1: one query per run of consecutive obligations
 	{
 		type bjob struct {
@@ -458,6 +460,11 @@ func (e *Engine) solveAll(want func(*Obligation) bool, quickMs, slowMs int, work
 			})
 			if len(batches) > 0 {
 				bjobs = append(bjobs, &bjob{text, batches})
+				for _, bt := range batches {
+					for _, ob := range bt {
+						pathKey[ob] = batches[0][0]
+					}
+				}
 			}
 		}
 		var bwg sync.WaitGroup
@@ -478,6 +485,15 @@ func (e *Engine) solveAll(want func(*Obligation) bool, quickMs, slowMs int, work
 						n += len(bt)
 					}
 					bmu.Lock()
+					nf := 0
+					for i := range j.batches {
+						if res[i] != "unsat" {
+							nf++
+						}
+					}
+					if nf >= 3 {
+						hardPath[j.batches[0][0]] = true // several batches of this path did not go through: a hard context
+					}
 					for i, bt := range j.batches {
 						if res[i] == "unsat" {
 							for _, ob := range bt {
@@ -536,7 +552,10 @@ func (e *Engine) solveAll(want func(*Obligation) bool, quickMs, slowMs int, work
 				t0 := time.Now()
 				pq := quickMs * 2 / 5 // per obligation, incremental; what is left goes to fresh processes (retryOne)
 				hard := time.Duration(len(j.obs)*pq+5000) * time.Millisecond
-				out, _ := runSolver(solvers[0], j.text, pq, hard)
+				out := ""
+				if j.covers || !hardPath[pathKey[j.obs[0]]] {
+					out, _ = runSolver(solvers[0], j.text, pq, hard)
+				} // else: a hard context; every obligation left goes to fresh processes right away, in parallel
 				res := parseResults(out)
 				dt := time.Since(t0).Seconds()
 				var retry []*Obligation
